@@ -100,6 +100,9 @@ def run(prop, tier):
     tag = f"{prop}-{tier}"
     vlib.clear_replays(prop, tier)
     cases, gstats = p_val.generate(fams, tag)
+    nb = p_val.builders(cases)
+    cases += nb
+    log(f"[gen] + {len(nb)} parsers built with the b API")
     p_val.observe(cases, tag, ops=("parse",))
     recs = build_records(cases)
     open_k = vlib.open_findings("C03") + vlib.open_findings("C12")
@@ -141,7 +144,7 @@ def run(prop, tier):
     cov = {
         "states": gstats["distinct"] + tstates, "transitions": gstats["states"] + consumed,
         "traces_validated_against_impl": consumed, "samples": samples,
-        "programs": len(cases), "families": gstats["families"], "calls_judged": ncalls,
+        "programs": len(cases), "parsers_built_with_b_api": len(nb), "families": gstats["families"], "calls_judged": ncalls,
         "calls_rejected_by_validator": nfail, "calls_accepted_by_validator": ncalls - nfail,
         "known_findings_hit": sorted({k for k, _ in known_hits}), "binding_selftest": neg, "exhaustive": False, "exhaustively_enumerated_depth": max(dp for _, dp in fams),
         "rule": "every program of each TypeGen family (TLC breadth-first) x type-directed probes x 4 ParseOptions "
